@@ -144,6 +144,7 @@ def _expected(root, path, val):
 def _run_aset(ctx, root, path_str, val, create_new_ok=False):
     ix = ctx.index
     it = ctx.fresh_interp()
+    it.allow_memoised = True  # one call per interpreter: a memoised parser behaves like a plain one (sequences: R40.6)
     T = ix.cls(f"{PYT}.TreeClass")
     it.attr_hooks.append(lambda it_, obj, name: _At(it_, obj) if name == "at" else NotImplemented)
     f = T.lookup_method("aset")
@@ -202,11 +203,13 @@ def run(ctx):
         ("fresh_attr", True, "ok"), ("fresh_attr", False, "raise"), ("a->fresh", True, "ok"), ("registry->['fresh']", True, "ok"), ("registry->['fresh']", False, "raise"),
         ("registry->['p']->['fresh']", True, "ok"), ("a->d->['fresh']", True, "ok"), ("missing->x", True, "raise"), ("registry->['nope']->['k']", True, "raise"), ("stack->[5]", True, "raise"),
     ]
-    for pstr, flag, want in cases:
+    # the same with None as the new value (None is also what the traversal uses for "slot does not exist yet")
+    cases = [c + ("NEWVAL",) for c in cases] + [("fresh_attr", True, "ok", None), ("registry->['fresh']", True, "ok", None), ("a->d->['fresh']", True, "ok", None), ("registry->['fresh']", False, "raise", None)]
+    for pstr, flag, want, newval in cases:
         root = _fixture(ix)
         before = _snapshot(root)
         try:
-            res = _run_aset(ctx, root, pstr, "NEWVAL", create_new_ok=flag)
+            res = _run_aset(ctx, root, pstr, newval, create_new_ok=flag)
             got = "ok"
         except Raised:
             res, got = None, "raise"
@@ -214,15 +217,61 @@ def run(ctx):
         okv = True
         if got == "ok" and want == "ok":
             it = ctx.fresh_interp()
+            it.allow_memoised = True
             T = ix.cls(f"{PYT}.TreeClass")
             ops = it.call_closure(it.closure_of(T.lookup_method("_parse_operations")), [pstr], {})
-            okv = _snapshot(res) == _expected(_fixture(ix), [tuple(o) for o in ops], "NEWVAL")
+            okv = _snapshot(res) == _expected(_fixture(ix), [tuple(o) for o in ops], newval)
         n += 1
-        ctx.ob("R40.4", f"aset[{pstr},create_new_ok={flag}]", got == want and after == before and okv, "a missing last step is created only with create_new_ok, otherwise refused; in every case the receiver (incl. its dictionaries) is unchanged", (got, "input changed" if after != before else "input unchanged"), (want, "input unchanged"))
-    # the parser
-    it = ctx.fresh_interp()
+        ctx.ob("R40.4", f"aset[{pstr},create_new_ok={flag}{',value=None' if newval is None else ''}]", got == want and after == before and okv, "a missing last step is created only with create_new_ok, otherwise refused; in every case the receiver (incl. its dictionaries) is unchanged", (got, "input changed" if after != before else "input unchanged"), (want, "input unchanged"))
+    # history independence: a call does not depend on earlier calls with the same path string.  The interpreter drops
+    # decorators it has no model for, so a memoising decorator on the parser is modelled here explicitly (one shared
+    # result object per argument — what functools.cache / lru_cache do); without one each call parses afresh.
     T = ix.cls(f"{PYT}.TreeClass")
     P = T.lookup_method("_parse_operations")
+    decs = [d for m in (P, T.lookup_method("aset")) for d in m.decorators]
+    unknown = [d for d in decs if d not in ("staticmethod", "classmethod") and "cache" not in d]
+    if unknown:
+        raise AnalysisError(f"TreeClass.aset / _parse_operations carry decorators without a model: {unknown}")
+    memo = any("cache" in d for d in P.decorators)
+    it = ctx.fresh_interp()
+    it.attr_hooks.append(lambda it_, obj, name: _At(it_, obj) if name == "at" else NotImplemented)
+    if memo:
+        from ..harness import stub_repo_calls
+
+        table = {}
+        pc = it.closure_of(P)
+        it.allow_memoised = {pc.qualname}
+
+        def memoised(it_, a, k, _t=table):
+            key = a[-1]
+            if key not in _t:
+                _t[key] = it_.call_closure(pc, [a[-1]], {})
+            return _t[key]
+
+        stub_repo_calls(it, {"_parse_operations": memoised})
+    aset = it.closure_of(T.lookup_method("aset"))
+    seq_bad = []
+    for pstr in ("items->[-1]", "items->[-2]->[-1]"):
+        for lengths in ((3, 5), (5, 3), (4, 4), (2, 6)):
+            for k_, L in enumerate(lengths):
+                root = Obj(T, {"items": [[10 * i, 10 * i + 1] for i in range(L)]}, f"cfg{L}")
+                want = [[10 * i, 10 * i + 1] for i in range(L)]
+                if pstr == "items->[-1]":
+                    want[-1] = "LAST"
+                else:
+                    want[-2][-1] = "LAST"
+                try:
+                    res = it.call_closure(aset, [root, pstr, "LAST"], {})
+                    got = res.attrs["items"] if isinstance(res, Obj) else res
+                except Raised as r:
+                    got = f"raises {r}"
+                n += 1
+                if got != want:
+                    seq_bad.append((pstr, lengths, k_, got if isinstance(got, str) else "wrong slot"))
+    ctx.ob("R40.6", "aset:history-independence", not seq_bad, "the same from-the-end path string applied in sequence (one process) to lists of different lengths addresses the last slot of each list — a call neither reads nor leaves behind state keyed by the path string" + (" [the parser is memoised: modelled as one shared parse result per string]" if memo else ""), seq_bad[:3], "each call as if it were the first")
+    # the parser
+    it = ctx.fresh_interp()
+    it.allow_memoised = True
     good = {"a->b->[0]->['name']": [("a", "attribute"), ("b", "attribute"), (0, "index"), ("name", "key")], "[-1]": [(-1, "index")], "x": [("x", "attribute")], "['k k']->y": [("k k", "key"), ("y", "attribute")]}
     for s, want in good.items():
         got = [tuple(o) for o in it.call_closure(it.closure_of(P), [s], {})]
